@@ -13,6 +13,8 @@ import (
 	"errors"
 	"fmt"
 	"go/ast"
+	"go/parser"
+	"go/token"
 	"go/types"
 	"os"
 	"strings"
@@ -42,6 +44,9 @@ func H_generate() {
 		p := &packages.Package{PkgPath: fmt.Sprintf("example.com/p%d", i), Name: fmt.Sprintf("p%d", i), Types: types.NewPackage(fmt.Sprintf("example.com/p%d", i), fmt.Sprintf("p%d", i))}
 		if !noFiles[i] {
 			p.GoFiles = []string{fmt.Sprintf("/abs/src/p%d/a.go", i), fmt.Sprintf("/abs/src/p%d/wire.go", i)}
+			// what go/packages reports when a previous output exists: it carries !wireinject, so under
+			// -tags=wireinject it is an ignored file of the package
+			p.IgnoredFiles = []string{fmt.Sprintf("/abs/src/p%d/%swire_gen.go", i, prefix), fmt.Sprintf("/abs/src/p%d/other_ignored.go", i)}
 			if dirConflict[i] {
 				p.GoFiles = append(p.GoFiles, fmt.Sprintf("/abs/elsewhere/p%d/b.go", i))
 			}
@@ -100,6 +105,14 @@ func H_generate() {
 	vStub("os.Lstat", func(name string) (os.FileInfo, error) { fsReads = append(fsReads, name); return nil, errors.New("no such file") })
 	vStub("io/ioutil.ReadDir", func(name string) ([]os.FileInfo, error) { fsReads = append(fsReads, name); return nil, errors.New("no such dir") })
 	vStub("os.ReadDir", func(name string) ([]os.DirEntry, error) { fsReads = append(fsReads, name); return nil, errors.New("no such dir") })
+	vStub("go/parser.ParseFile", func(fset *token.FileSet, filename string, src interface{}, mode parser.Mode) (*ast.File, error) {
+		fsReads = append(fsReads, filename)
+		return nil, errors.New("no such file")
+	})
+	vStub("go/parser.ParseDir", func(fset *token.FileSet, path string, filter func(os.FileInfo) bool, mode parser.Mode) (map[string]*ast.Package, error) {
+		fsReads = append(fsReads, path)
+		return nil, errors.New("no such dir")
+	})
 	opts := &GenerateOptions{Tags: tags, PrefixOutputFile: prefix}
 	if withHeader {
 		// as read by ioutil.ReadFile: a slice with spare capacity
